@@ -272,13 +272,20 @@ func (kgdb *KVInterfaceGDB) BulkAdd(stream <-chan *gdbi.GraphElement) error {
 	return err
 }
 
-// DelEdge deletes edge with id `key`
+// DelEdge deletes edge with id `key`. The edge record, its two adjacency
+// entries and its label-index entries are removed in one transaction, so that
+// an interrupted call leaves either the whole edge or nothing of it.
 func (kgdb *KVInterfaceGDB) DelEdge(eid string) error {
 	ekeyPrefix := EdgeKeyPrefix(kgdb.graph, eid)
 	var ekey []byte
+	var idxKeys [][]byte
 	kgdb.kvg.kv.View(func(it kvi.KVIterator) error {
 		for it.Seek(ekeyPrefix); it.Valid() && bytes.HasPrefix(it.Key(), ekeyPrefix); it.Next() {
-			ekey = it.Key()
+			ekey = append([]byte{}, it.Key()...)
+		}
+		if ekey != nil {
+			_, _, _, _, label, _ := EdgeKeyParse(ekey)
+			idxKeys = labelUnindexKeys(it, kgdb.graph, "e", map[string]string{eid: label})
 		}
 		return nil
 	})
@@ -292,23 +299,23 @@ func (kgdb *KVInterfaceGDB) DelEdge(eid string) error {
 	skey := SrcEdgeKey(kgdb.graph, sid, did, eid, label, etype)
 	dkey := DstEdgeKey(kgdb.graph, sid, did, eid, label, etype)
 
-	if err := kgdb.kvg.kv.Delete(ekey); err != nil {
-		return err
-	}
-	if err := kgdb.kvg.kv.Delete(skey); err != nil {
-		return err
-	}
-	if err := kgdb.kvg.kv.Delete(dkey); err != nil {
-		return err
-	}
-	if err := kgdb.kvg.unindexLabel(kgdb.graph, "e", label, eid); err != nil {
+	err := kgdb.kvg.kv.Update(func(tx kvi.KVTransaction) error {
+		for _, k := range append([][]byte{ekey, skey, dkey}, idxKeys...) {
+			if err := tx.Delete(k); err != nil {
+				return err
+			}
+		}
+		return nil
+	})
+	if err != nil {
 		return err
 	}
 	kgdb.kvg.ts.Touch(kgdb.graph)
 	return nil
 }
 
-// DelVertex deletes vertex with id `key`
+// DelVertex deletes vertex with id `key`. The vertex, its incident edges and
+// the label-index entries of all of them are removed in one transaction.
 func (kgdb *KVInterfaceGDB) DelVertex(id string) error {
 	vid := VertexKey(kgdb.graph, id)
 	skeyPrefix := SrcEdgePrefix(kgdb.graph, id)
@@ -353,10 +360,12 @@ func (kgdb *KVInterfaceGDB) DelVertex(id string) error {
 			delKeys = append(delKeys, skey, dkey, ekey)
 			delEdges[eid] = label
 		}
+		delKeys = append(delKeys, labelUnindexKeys(it, kgdb.graph, "v", map[string]string{id: vlabel})...)
+		delKeys = append(delKeys, labelUnindexKeys(it, kgdb.graph, "e", delEdges)...)
 		return nil
 	})
 
-	err := kgdb.kvg.kv.Update(func(tx kvi.KVTransaction) error {
+	return kgdb.kvg.kv.Update(func(tx kvi.KVTransaction) error {
 		if err := tx.Delete(vid); err != nil {
 			return err
 		}
@@ -368,18 +377,6 @@ func (kgdb *KVInterfaceGDB) DelVertex(id string) error {
 		kgdb.kvg.ts.Touch(kgdb.graph)
 		return nil
 	})
-	if err != nil {
-		return err
-	}
-	if err := kgdb.kvg.unindexLabel(kgdb.graph, "v", vlabel, id); err != nil {
-		return err
-	}
-	for eid, label := range delEdges {
-		if err := kgdb.kvg.unindexLabel(kgdb.graph, "e", label, eid); err != nil {
-			return err
-		}
-	}
-	return nil
 }
 
 // GetEdgeList produces a channel of all edges in the graph
